@@ -89,10 +89,19 @@ def regen(ctx=None):
     return ok, "\n".join(msgs)
 
 
+def wip_files():
+    """files listed in coq/WIP.txt are work in progress: not part of the build, of the scan or of any claim"""
+    p = os.path.join(COQ, "WIP.txt")
+    if not os.path.exists(p):
+        return set()
+    return {l.strip() for l in open(p) if l.strip() and not l.startswith("#")}
+
+
 def coqproject():
     files = []
+    wip = wip_files()
     for d in ("lib", "theory", "model", "spec", "gen", "bridge", "proofs", "props", "corr"):
-        files += sorted(glob.glob(os.path.join(COQ, d, "*.v")))
+        files += [f for f in sorted(glob.glob(os.path.join(COQ, d, "*.v"))) if os.path.relpath(f, COQ) not in wip]
     text = "-Q . MD\n-arg -w -arg none\n" + "\n".join(os.path.relpath(f, COQ) for f in files) + "\n"
     p = os.path.join(COQ, "_CoqProject")
     changed = not os.path.exists(p) or open(p).read() != text
@@ -173,6 +182,8 @@ def scan_forbidden(ctx):
     bad = []
     for d in ("lib", "theory", "model", "spec", "gen", "bridge", "proofs", "props", "corr"):
         for f in glob.glob(os.path.join(COQ, d, "*.v")):
+            if os.path.relpath(f, COQ) in wip_files():
+                continue
             txt = re.sub(r"\(\*.*?\*\)", "", open(f).read(), flags=re.S)
             for m in FORBIDDEN.finditer(txt):
                 bad.append(f"{os.path.relpath(f, COQ)}: {m.group(0)}")
